@@ -194,6 +194,7 @@ type fh struct {
 	nfault    int
 	burstEnd  int // number of log events when the scenario's threads had all finished (before any post phase)
 	ttlChain  bool
+	nested    bool              // the builder of key 0 calls Get for key 1 on the same front-end (tag "nested")
 	walkFail  bool              // before the Gets start somebody walks the backend and gives up at the first entry (tag "walkfail")
 	slowBuild bool              // every build lets UpdateTTL+1s of virtual time pass before it returns (tag "slow")
 	ttlCalls  []ttlCall         // WithTTL calls the builder performs (C06)
@@ -746,6 +747,10 @@ func newFH(cfg FCfg) *fh {
 		if t == "walkfail" {
 			h.walkFail = true
 		}
+
+		if t == "nested" {
+			h.nested = true
+		}
 	}
 
 	bcfg.Stats = st
@@ -885,6 +890,12 @@ func (h *fh) builder(k int) func(ctx context.Context) (Tok, error) {
 			for _, c := range h.ttlCalls {
 				_ = cache.WithTTL(ctx, c.TTL, c.Upd)
 			}
+		}
+
+		// A composite value: the builder of the first key needs the second key and asks the same front-end for it,
+		// with the context it was handed.
+		if h.nested && k == 0 && len(h.keys) > 1 {
+			_, _, _, _ = h.front.Get(ctx, h.keys[1], h.builder(1))
 		}
 
 		// A slow data source: the build takes longer than UpdateTTL (and than the failure window).
